@@ -55,6 +55,11 @@ pub struct Prog {
     /// frontend_check_live off, bit 3 final classic optimizer pass
     #[serde(default)]
     pub direct: Option<u8>,
+    /// compile through the Python binding (`chialisp.compile(source, search_paths,
+    /// export_symbols=True)` in an embedded interpreter); builds without the binding use
+    /// compile_clvm_text with classic_with_opts = true instead, which is what the binding calls
+    #[serde(default)]
+    pub py: bool,
 }
 
 #[derive(Serialize, Deserialize, Clone, Debug, PartialEq)]
@@ -99,6 +104,12 @@ pub struct Workload {
     /// allocation counts of all compiles it contains) exceeds this; 0 = no limit
     #[serde(default)]
     pub work_limit: u64,
+    /// per-mille chance, at every scheduling decision inside a compile, that the machine
+    /// stalls: the simulated clock (CLOCK_MONOTONIC and CLOCK_REALTIME alike) jumps ahead by
+    /// seconds to hours while the compile is parked.  0 = time stands still, as in the
+    /// reference compile
+    #[serde(default)]
+    pub stall_pm: u16,
 }
 
 pub const FAILERS: [&str; 11] = [
@@ -366,6 +377,45 @@ fn compile_direct(
     }
 }
 
+/// The Python binding's `compile`; None when this build has no binding.
+fn compile_py(text: &str, search: &[String]) -> Option<Compiled> {
+    let r = crate::pybind::compile(text, search)?;
+    let _g = seam::HarnessGuard::new();
+    Some(match r {
+        Ok((hex, syms)) => {
+            let bytes: Option<Vec<u8>> = if hex.len() % 2 == 0 {
+                (0..hex.len() / 2)
+                    .map(|i| u8::from_str_radix(&hex[2 * i..2 * i + 2], 16).ok())
+                    .collect()
+            } else {
+                None
+            };
+            match bytes {
+                Some(b) => Compiled {
+                    class: "ok",
+                    bytes: b,
+                    syms: norm_syms(&syms.into_iter().collect()),
+                },
+                None => Compiled {
+                    class: "err",
+                    bytes: vec![],
+                    syms: String::new(),
+                },
+            }
+        }
+        Err(e) if e.starts_with("PanicException") => Compiled {
+            class: "panic",
+            bytes: vec![],
+            syms: String::new(),
+        },
+        Err(_) => Compiled {
+            class: "err",
+            bytes: vec![],
+            syms: String::new(),
+        },
+    })
+}
+
 /// The `run` tool, as the command line runs it; the program text is read from `path`.
 fn compile_cli(path: &str, search: &[String], ops_version: Option<u8>) -> Compiled {
     use chialisp::classic::clvm::__type_compatibility__::Stream;
@@ -546,7 +596,14 @@ fn run_compile_op(
         }
         vec![dir]
     };
-    let c = if cli {
+    let py = if prog.py && !cli {
+        compile_py(&prog.text, &search)
+    } else {
+        None
+    };
+    let c = if let Some(c) = py {
+        c
+    } else if cli {
         let path = if prog.corpus {
             prog.name.clone()
         } else {
@@ -584,8 +641,13 @@ fn run_compile_op(
     actor.boundary("res", &info);
 }
 
-fn thread_body(progs: Arc<Vec<Prog>>, t: ThreadSpec) -> Box<dyn FnOnce(&Actor) + Send + 'static> {
+fn thread_body(
+    progs: Arc<Vec<Prog>>,
+    t: ThreadSpec,
+    clock_yields: bool,
+) -> Box<dyn FnOnce(&Actor) + Send + 'static> {
     Box::new(move |actor: &Actor| {
+        actor.clock_yields.set(clock_yields);
         let mut shared_alloc = Allocator::new();
         let mut shared_syms: HashMap<String, String> = HashMap::new();
         for (oi, op) in t.ops.iter().enumerate() {
@@ -763,6 +825,7 @@ pub fn generate(rng: &mut Rng, thorough: bool) -> Workload {
                         _ => None,
                     },
                     direct: if rng.chance(1, 8) { Some(rng.below(16) as u8) } else { None },
+                    py: false,
                 });
                 continue;
             }
@@ -783,6 +846,7 @@ pub fn generate(rng: &mut Rng, thorough: bool) -> Workload {
                     _ => None,
                 },
                 direct: if rng.chance(1, 8) { Some(rng.below(16) as u8) } else { None },
+                py: false,
             });
             continue;
         }
@@ -855,6 +919,7 @@ pub fn generate(rng: &mut Rng, thorough: bool) -> Workload {
                 _ => None,
             },
             direct: if rng.chance(1, 8) { Some(rng.below(16) as u8) } else { None },
+            py: false,
         });
     }
     // a near twin of one of the generated programs (same shape, one atom changed)
@@ -904,6 +969,7 @@ pub fn generate(rng: &mut Rng, thorough: bool) -> Workload {
                     cli: false,
                     ops_version: None,
                     direct: None,
+                    py: false,
                 });
             }
             long_pair = Some((progs.len() - 2, progs.len() - 1));
@@ -980,6 +1046,15 @@ pub fn generate(rng: &mut Rng, thorough: bool) -> Workload {
     if rng.chance(1, 8) {
         for p in progs.iter_mut() {
             p.cli = true;
+        }
+    }
+    // one run in eight goes through the Python binding only, and elsewhere one program in ten
+    let all_py = rng.chance(1, 8);
+    for p in progs.iter_mut() {
+        let one = rng.chance(1, 10);
+        if (all_py || one) && !p.cli {
+            p.py = true;
+            p.direct = None;
         }
     }
     let k = progs.len();
@@ -1113,6 +1188,11 @@ pub fn generate(rng: &mut Rng, thorough: bool) -> Workload {
         },
         stay_weight: *rng.pick(&[1u8, 1, 2, 6]),
         work_limit: if thorough { 600_000_000 } else { 50_000_000 },
+        stall_pm: if rng.chance(1, 3) {
+            *rng.pick(&[100u16, 300, 700])
+        } else {
+            0
+        },
     }
 }
 
@@ -1202,7 +1282,20 @@ impl Policy for C05Policy {
         }
         Ok(())
     }
-    fn decide(&mut self, actor: usize, op: &Op, tape: &mut Tape, _w: &Arc<World>) -> Decision {
+    fn decide(&mut self, actor: usize, op: &Op, tape: &mut Tape, world: &Arc<World>) -> Decision {
+        // a stalled machine: time passes while this compile is parked
+        if self.w.stall_pm > 0
+            && self.tracks[actor].in_op
+            && tape.chance("stall", self.w.stall_pm as u32, 1000)
+        {
+            const JUMPS_S: [u64; 4] = [2, 45, 1200, 93_600];
+            let k = tape.below("stall_len", JUMPS_S.len() as u64) as usize;
+            world.advance_clock(JUMPS_S[k] * 1_000_000_000);
+            self.probes.fault("clock_jump_inside_compile");
+            if op.kind == OpKind::Boundary && op.path == "clock" {
+                self.probes.hit("clock_jump_right_before_the_compiler_reads_the_clock");
+            }
+        }
         // count context switches that land inside somebody's compile
         if let Some(l) = self.last_actor {
             if l != actor {
@@ -1291,6 +1384,9 @@ impl Policy for C05Policy {
                             self.pair_keys.push(h);
                             if t.switches_in_op > 0 {
                                 self.probes.hit("compile_preempted_by_another_thread");
+                            }
+                            if self.w.progs[got.p].py && !self.w.progs[got.p].cli && crate::pybind::available() {
+                                self.probes.hit("compile_through_python_binding_compared");
                             }
                             if spec.reenter.is_some() && !got.nested {
                                 self.probes.hit("compile_reentered_from_read_new_file");
@@ -1486,7 +1582,7 @@ pub fn run_one(w: &Workload, tape: &mut Tape, entropy_seed: u64) -> Result<RunRe
             entropy_seed: mix(entropy_seed, i as u64 + 1),
             skew_ns: 0,
             stack_bytes: 64 << 20,
-            body: thread_body(progs.clone(), t.clone()),
+            body: thread_body(progs.clone(), t.clone(), w.stall_pm > 0),
         });
     }
     let mut pol = C05Policy {
@@ -1504,7 +1600,7 @@ pub fn run_one(w: &Workload, tape: &mut Tape, entropy_seed: u64) -> Result<RunRe
         max_ref_allocs,
     };
     ARGNAME_CTR.store(0, Ordering::SeqCst);
-    let out = sched::run(world, specs, tape, &mut pol, 100_000, Duration::from_secs(900))
+    let out = sched::run(world.clone(), specs, tape, &mut pol, 100_000, Duration::from_secs(900))
         .map_err(|e| format!("{:?}", e))?;
     ARGNAME_CTR.store(0, Ordering::SeqCst);
 
@@ -1549,7 +1645,7 @@ pub fn run_one(w: &Workload, tape: &mut Tape, entropy_seed: u64) -> Result<RunRe
         log_hash,
         nontrivial: pol.nontrivial_compares > 0,
         truncated: out.truncated || out_r.truncated,
-        sim_ns: 0,
+        sim_ns: world.now_ns() - 2_000_000_000_000,
         probes,
         panics: out.panics,
         detail,
@@ -1597,6 +1693,7 @@ impl Prop for C05 {
         "C05"
     }
     fn init_process() {
+        crate::pybind::init();
         // force every lazy static of the compiler on a non-actor thread, so that no actor can
         // ever be preempted inside a `Once`
         for (i, t) in WARMUP.iter().chain(FAILERS.iter()).chain(CANARIES.iter()).enumerate() {
@@ -1615,6 +1712,11 @@ impl Prop for C05 {
     }
     fn shrink(w: &Workload) -> Vec<Workload> {
         let mut out = Vec::new();
+        if w.stall_pm > 0 {
+            let mut c = w.clone();
+            c.stall_pm = 0;
+            out.push(c);
+        }
         // drop whole threads, programs, operations
         if w.threads.len() > 1 {
             for i in 0..w.threads.len() {
@@ -1724,9 +1826,10 @@ impl Prop for C05 {
     }
     fn real_vs_stub() -> serde_json::Value {
         serde_json::json!({
-            "real": ["clvmc::compile_clvm_text (both classic_with_opts settings) and everything below it: reader, preprocessor, frontend, rename, desugaring, CSE, deinlining, codegen, classic stage_2 compiler, clvmr", "gensym::ARGNAME_CTR, clvm::NewStyleIntConversion, CompilerOpts delegation (public items of the crate used as seams)", "std HashMap/HashSet with RandomState"],
-            "simulated": ["thread scheduling (operation boundaries, allocation-count preemption)", "hash entropy (getrandom)", "process history (counter values, earlier failures, ambient mode)"],
-            "not_run": ["python and wasm bindings", "cmds.rs launch_tool option parsing"]
+            "real": ["cmds::launch_tool (`run`, with its option parsing) for command-line programs, compiler::compile_file called directly with caller-built options", "clvmc::compile_clvm_text (both classic_with_opts settings) and everything below it: reader, preprocessor, frontend, rename, desugaring, CSE, deinlining, codegen, classic stage_2 compiler, clvmr", "gensym::ARGNAME_CTR, clvm::NewStyleIntConversion, CompilerOpts delegation (public items of the crate used as seams)", "std HashMap/HashSet with RandomState"],
+            "simulated": ["thread scheduling (operation boundaries, allocation-count preemption, every clock read)", "clock (clock_gettime: stands still in the reference compile, jumps by 2 s .. 26 h while a compile is parked in one run of three)", "hash entropy (getrandom)", "process history (counter values, earlier failures, ambient mode)"],
+            "python_binding": if crate::pybind::available() { "real: src/py/api.rs `compile` (pyo3 0.24, CPython 3.11 embedded in the worker) for one program in ten and for every program of one run in eight" } else { "not in this build (built with --no-default-features): those programs go through compile_clvm_text(classic_with_opts = true), which is what the binding calls" },
+            "not_run": ["wasm bindings"]
         })
     }
     fn bounds(thorough: bool) -> serde_json::Value {
